@@ -175,14 +175,14 @@ func VF_C09_c_timestamp() {
 	ok := d.VerifyTimestamp(blk)
 	t1 := time.Now().UnixNano()
 	const ms = 1000000
-	vf.Assume(t1-t0 <= ms) // the call reads the clock within 1 ms of t0 (stated assumption; natively a slower run is "assumption failed")
+	vf.Assume(t1-t0 <= 50*ms) // the call reads the clock within 50 ms of t0 (stated assumption; natively a slower run is "assumption failed")
 	vf.Reach("C09.c.timestamp")
 	// two or more slots ahead of every clock reading inside the call => refused (slot indices have 1 ms granularity)
-	if delta >= 2*iv*1000*ms+3*ms {
+	if delta >= 2*iv*1000*ms+52*ms {
 		vf.Assert(!ok, "C09.c.timestamp")
 	}
 	// less than one slot ahead of every clock reading => not "future"
-	if delta <= iv*1000*ms-3*ms {
+	if delta <= iv*1000*ms-52*ms {
 		vf.Assert(ok, "C09.c.timestamp")
 	}
 	vf.Observe("iv", iv)
